@@ -296,3 +296,11 @@ _part1_targets = targets
 
 def targets():      # noqa: F811
     return _part1_targets() + [target_zhit_steps()]
+
+
+_targets_with_zhit = targets
+
+
+def targets():      # noqa: F811
+    from . import dataflow as DF
+    return _targets_with_zhit() + [DF.target_trnnls("steps")]
